@@ -485,6 +485,18 @@ def wire_norm(m):
     cs = []
     for c in m.get("controls") or []:
         oid, crit, val = control_wire(c)
+        if oid == CONTROL_OID["Paged"] and val is not None:
+            # the paged-results value is itself BER (RFC 2696): compare what it says, not which length forms it uses
+            try:
+                r = _R(bytes(val), 0, len(val))
+                sq = r.sub(UNIVERSAL, 16, "realSearchControlValue")
+                size = sq.int_("size")
+                cookie = sq.octs("cookie").hex()
+                if not sq.more() and not r.more():
+                    cs.append([oid, bool(crit), {"size": size, "cookie": cookie}])
+                    continue
+            except Malformed:
+                pass
         cs.append([oid, bool(crit), None if val is None else bytes(val).hex()])
     m["controls"] = cs
     if "result" in m:
